@@ -1,6 +1,7 @@
 import Driver.Util
 import Driver.ExecIO
 import GqlgenVerif.Model.Defer
+import GqlgenVerif.Model.DeferSpec
 /-! Driver for C13: first line = schema JSON; every further line = one harness result of an operation
     with @defer. Prints the model's initial payload and the set of deferred-group payloads. -/
 open Lean GqlgenVerif Driver.ExecIO
@@ -10,6 +11,58 @@ def payloadJson (p : D.Payload) : Json :=
   Json.mkObj [("path", Json.str (pathStr p.path)), ("label", Json.str p.label),
     ("data", Json.str (render p.data)),
     ("errors", Json.arr ((errStrs p.st.errs).map Json.str).toArray)]
+
+/-- `a/b/0` → path (response keys are GraphQL names, so a numeric segment is a list index) -/
+def pathOf (t : String) : Path :=
+  if t == "" then [] else
+    (t.splitOn "/").map fun seg => match seg.toNat? with | some n => Seg.idx n | none => Seg.key seg
+
+/-- order-preserving tree encoding written by the check: null | {"l": text} | {"a": [...]} | {"o": [[k, v], ...]} -/
+partial def treeOf (j : Json) : Out :=
+  match j with
+  | .null => .null
+  | _ =>
+    match j.getObjVal? "l" with
+    | .ok (.str t) => .leaf t
+    | _ =>
+      match j.getObjVal? "a" with
+      | .ok (.arr xs) => .list (xs.toList.map treeOf)
+      | _ =>
+        match j.getObjVal? "o" with
+        | .ok (.arr kvs) => .obj (kvs.toList.map fun kv =>
+            match kv with
+            | .arr #[.str k, v] => (k, treeOf v)
+            | _ => ("?", .null))
+        | _ => .null
+
+def errsOf (j : Json) : List (String × String) :=
+  (arr j "errors").map fun e => match e with
+    | .arr #[.str p, .str m] => (p, m)
+    | _ => ("?", "?")
+
+def wpOf (j : Json) : DeferSpec.WP :=
+  let t := match j.getObjVal? "tree" with | .ok v => treeOf v | _ => .null
+  { path := pathOf (str j "path"), label := str j "label",
+    data := match t with | .obj fs => some fs | _ => none,
+    root := t, errs := errsOf j,
+    hasNext := match j.getObjVal? "hasNext" with | .ok (.bool b) => some b | _ => none }
+
+/-- what a JSON decoder makes of an object with a repeated key (F01's shape): first position, last value -/
+partial def dedupKeys : Out → Out
+  | .obj fs => .obj (DeferSpec.setKeys [] (fs.map fun (k, v) => (k, dedupKeys v)))
+  | .list xs => .list (xs.map dedupKeys)
+  | o => o
+
+/-- the defer model's own payloads as a client would receive them (model order, hasNext as the response
+    function sets it) -/
+def modelWire (init : D.Payload) (groups : List D.Payload) : List DeferSpec.WP :=
+  let n := groups.length
+  let mk (p : D.Payload) (i : Nat) : DeferSpec.WP :=
+    { path := p.path, label := p.label, data := match dedupKeys p.data with | .obj fs => some fs | _ => none,
+      root := dedupKeys p.data,
+      errs := p.st.errs.map fun e => (pathStr e.path, e.msg),
+      hasNext := if n == 0 then none else some (decide (i < n)) }
+  mk init 0 :: (groups.zipIdx.map fun (g, i) => mk g (i + 1))
 
 def runCase (s : Schema) (line : String) : String :=
   match Json.parse line with
@@ -31,7 +84,21 @@ def runCase (s : Schema) (line : String) : String :=
         | some fields =>
           let (init, groups) := D.execDeferred o rootName fields
           let allSt := groups.foldl (fun a g => a.append g.st) init.st
+          -- the C13 statement itself (Model/DeferSpec.lean) on the implementation's payloads in arrival order
+          let clauses : List String := match j.getObjVal? "wire", j.getObjVal? "plainWire" with
+            | .ok (.arr ws), .ok pw =>
+              let pt := match pw.getObjVal? "tree" with | .ok v => treeOf v | _ => .null
+              DeferSpec.check (ws.toList.map wpOf) pt (errsOf pw)
+            | _, _ => ["no-wire"]
+          -- ... and on the model's own payloads against the implementation's plain run
+          let modelClauses : List String := match j.getObjVal? "plainWire" with
+            | .ok pw =>
+              let pt := match pw.getObjVal? "tree" with | .ok v => treeOf v | _ => .null
+              DeferSpec.check (modelWire init groups) pt (errsOf pw)
+            | _ => ["no-wire"]
           (Json.mkObj [
+            ("clauses", Json.arr (clauses.map Json.str).toArray),
+            ("modelClauses", Json.arr (modelClauses.map Json.str).toArray),
             ("initial", payloadJson init),
             ("groups", Json.arr (groups.map payloadJson).toArray),
             ("invs", Json.arr ((sortStrs (allSt.invs.map fun (p, h) => p ++ " " ++ h)).map Json.str).toArray),
